@@ -87,8 +87,15 @@ RawNode UnaryOperation(RawNode operation, RawNode operand) {
 }
 
 RawNode RemoveBrackets(RawNode br1, RawNode operand, RawNode br2) {
-  operand->token.pos = StrRange{ br1->token.pos.start, br2->token.pos.finish };
-  auto bracketNode = std::make_shared<Node>(TokenID::PUNC_PL, operand->token.pos);
+  const StrRange range{ br1->token.pos.start, br2->token.pos.finish };
+  // Note: bracket nodes are dropped from the syntax tree, so the node that replaces them covers the brackets
+  auto inner = operand;
+  while (inner->token.id == TokenID::PUNC_PL) {
+    inner->token.pos = range;
+    inner = inner->children.at(0);
+  }
+  inner->token.pos = range;
+  auto bracketNode = std::make_shared<Node>(TokenID::PUNC_PL, range);
   bracketNode->children.emplace_back(operand);
   return bracketNode;
 }
